@@ -8,6 +8,8 @@ def jobs(tier):
     q = tier == "quick"
     return [
         Job("c13_formats", "flt-asan", "random", workers=W, cases=1000 if q else 25000, maxtime=60 if q else 900),
+        # fixed-point build: the three entry points convert to the 16-bit internal format by different code (FLOAT2INT16, >> 8, copy)
+        Job("c13_formats", "fix-asan", "random", workers=W, cases=400 if q else 8000, maxtime=60 if q else 600, seed_salt=31),
     ]
 
 
@@ -47,7 +49,7 @@ TEXT = dict(
     technique="differential property-based testing: twin encoders / decoders on three PCM views of the same generated audio and packet "
               "histories, exact bit-for-bit relations written from the property text, exact integer reference model for the projection demixer",
     level="Every generated history runs the three entry points side by side on separate codec instances and compares packets, final ranges, "
-          "sample counts and every output sample with the stated exact relation (float build).  Exploration: sampled configurations, signals, "
+          "sample counts and every output sample with the stated exact relation (float build, and the fixed-point build with in-range input).  Exploration: sampled configurations, signals, "
           "layouts and histories; no exhaustive part.",
     note="Trusted: opus_pcm_soft_clip as the soft clipper (C19), multistream == per-stream decoding (C10), lrintf of the C library, ASan/UBSan.",
 )
